@@ -557,7 +557,8 @@ func (x *runner) loadCase(seed uint64) {
 		x.run.Count("error_kind", k)
 		obs = vh.App("OErr", vh.Str(k))
 		if k == "other" && !c.OracleOnly {
-			// a modelled fault answered with a message the harness does not know: surfaces as a mismatch below
+			// a modelled fault answered with a text the harness does not recognise: "rejected, reason not classified",
+			// compatible with any error the model predicts (Run/C17Run.v compatible); counted for information
 			x.run.Count("unmapped_error", res.err)
 		}
 	case "ok":
